@@ -60,6 +60,11 @@ def main(tier):
         for prog in ["a = 1\r\na + 1", "5\r\n6", "x = 2d1\r\n\r\ny = x + 1\r\ny", "a = 1 \r\n a + 1", "`{% a = 1\r\na + 2 %}`", "i = 0\r\nwhile i < 2 { i = i + 1 }\r\ni"]:
             for t in ["", " ", "\r\n", "\r\n#x", " tail"]:
                 cases.append(("", (prog + t).encode("utf-8"), "-"))
+        # an indexed array / range literal followed by a bracket that starts an expression but is not a complete index: every index is
+        # looked at before its code is written, the second and later ones too
+        for base in ["[[1,2],[3]][0]", "[[1..3]][0]", "x = [[4,5],[6]][0]", "[1,2,3][1]", "[[1,2],[3]][0][1]", "[2..5][1]", "[[[1]]][0][0]", "1 + [[1,2],[3]][0][0]"]:
+            for t in ["[1 x", "\n[7, 8", " [0:1 and so on", "[1:", "\n[9 ", "[", "[0", "[0 1]", " [1,", "[0][", "[0][1 x", "[0:1][2 x"]:
+                cases.append(("", (base + t).encode("utf-8"), "-"))
         # statement-level tails that START a construct which writes into its own code buffer (computed value, function) and then break off
         STMT_TAILS = ["; &note = ???", ";&c=", "\n&c = )", "; &c = 1 +", "; &c.x = ", "; func f(", "; func f() {", "; func f() { 1 +", "; &c = `a{", "; if 1 {", "; while 1 { &d = "]
         for s in ["hp = 10; hp = hp - 3", "a = 3d6", "x = 1; y = x + 1", "2d6 + 1", "i=0; while i<3 { i=i+1 }; i", "&q = 2; q + 1", "func g(){ 5 }; g()"]:
